@@ -63,6 +63,9 @@ def ops_for(case, bank_hex):
     ops += ["off 2 %d" % k for k in chord[3:]] + ["stat %d" % sec(0.3), "stat %d" % sec(0.2)]
     ops += ["on 2 %d 127" % k for k in chord] + ["stat %d" % sec(0.1)] + ["off 2 %d" % k for k in chord[3:]] + ["stat %d" % sec(0.3), "stat %d" % sec(0.2)]   # the first three still held
     ops += ["off 2 %d" % k for k in chord[:3]] + ["stat %d" % sec(0.3), "stat %d" % sec(0.2)]
+    # a held note under a dense burst of controller changes (several hundred register writes before the next frame is rendered):
+    # it stays audible, and its release still silences it
+    ops += ["on 3 %d 127" % key] + ["cc 3 7 %d" % (126 + (k & 1)) for k in range(160)] + ["stat %d" % sec(0.5), "off 3 %d" % key, "stat %d" % sec(0.3), "stat %d" % sec(0.2)]
     return ops
 
 
@@ -137,14 +140,56 @@ def run(tier, replay=None):
                 fails.append("a six-note chord is not audible (rms %d)" % c_all["rms"])
             quiet(c_q2, "after all notes of a chord were released")
             quiet(c_q4, "after all notes of a chord were released")
+            if len(stats) >= 25:
+                d_held, d_rel1, d_rel2 = stats[22:25]
+                if d_held["rms"] < 150:
+                    fails.append("a held note is no longer audible after a dense burst of 160 volume changes (rms %d)" % d_held["rms"])
+                quiet(d_rel2, "after the release of a note that was held through a dense burst of controller changes")
         for f in fails[:1]:
             nfail += 1
             if nfail <= 3:
                 ctx.violate("monitor", "# %s\n# case: %s\n%s\n" % (f, case, "\n".join(x if len(x) < 200 else x[:60] + "..." for x in h)))
                 common.write_replay(PROP, "monitor-full", "\n".join(h) + "\n")
+    # ---- the register ring of the YMFM front-end against its model (Model/ChipFront.lean, `Ring`): bursts around the capacity
+    front_ops, front_diff = 0, 0
+    if not replay:
+        rng = ctx.rng
+        fops = []
+        for i in range(12 if tier == "quick" else 150):
+            fops.append("new")
+            for _ in range(rng.choice([3, 8, 20])):
+                if rng.random() < 0.6:
+                    for _ in range(rng.choice([1, 5, 60, 499, 500, 501, 700, 1203])):
+                        fops.append("w %d %d %d" % (rng.choice([0, 0, 1, 2]), rng.choice([0x28, 0x30, 0x40, 0xA0, 0xA4, 0xB4, rng.randrange(256)]), rng.randrange(256)))
+                else:
+                    fops.append("n %d" % rng.choice([0, 1, 2, 7, 499, 500, 501, 1000]))
+        ftext = "\n".join(fops) + "\n"
+        fimpl, _ = common.run_impl("front", ftext, stateless=False)
+        try:
+            fmodel = common.run_model("front", ftext)
+        except Exception as e:
+            fmodel = None
+            ctx.broken.append("model driver failed (front): %s" % str(e)[:200])
+        front_ops = len(fops)
+        if fmodel is not None:
+            first = None
+            for i in range(len(fops)):
+                a = fmodel[i] if i < len(fmodel) else "<missing>"
+                b = fimpl[i] if i < len(fimpl) else "<missing>"
+                if a != b:
+                    front_diff += 1
+                    if first is None:
+                        first = i
+            if first is not None:
+                st = max(j for j in range(first + 1) if fops[j] == "new")
+                ctx.broken.append("correspondence front (YMFM register ring): %d differing observations, first at op %d %r: model %r, implementation %r" % (
+                    front_diff, first, fops[first], fmodel[first][:120] if first < len(fmodel) else "-", fimpl[first][:120]))
+                common.write_replay(PROP, "divergence", "# component front\n# model: %s\n# implementation: %s\n%s\n" % (
+                    fmodel[first][:200] if first < len(fmodel) else "-", fimpl[first][:200], "\n".join(fops[st:first + 1])))
     ctx.samples = [{"case": str(c), "observations": impl[i * 0:0]} for i, c in enumerate(cases[:3])]
     ctx.samples = [{"case": str(c)} for c in cases[:4]] + [{"stat": r} for r in impl if r.startswith("ret=") and "zc=" in r][:2]
-    ctx.cov.update({"evaluations": len(flat), "cases": len(cases), "monitor_failures": nfail, "disagreements": 0, "traces_validated_against_impl": 0,
+    ctx.cov.update({"evaluations": len(flat) + front_ops, "cases": len(cases), "monitor_failures": nfail, "disagreements": front_diff, "traces_validated_against_impl": front_ops - front_diff,
+                    "front_ring_ops": front_ops,
                     "worst_relative_pitch_error": {k: round(v, 5) for k, v in worst.items()}, "input_distribution": dict(kinds), "exhaustive": False,
                     "distinct_nontrivial": len(set(impl)),
                     "rule": "pure-tone instrument; per emulator core x chip family x output rate x key x run-at-PCM-rate: idle level, held note (frequency from rising crossings with "
